@@ -13,24 +13,16 @@ from . import core_folds as cf
 from .common import is_name, params, single_return, returns_of, bind_call
 from .vector_rules import (check_vector_forwarding, check_component_map, VECTOR, VBINOP, FORWARDED)
 
-EXPLANATION = (
-    "Static rules on core/vector.py: (R1) every Vector dunder forwards the same-named Array dunder to the lifting helper; "
-    "k*v, k/v, k+v, k-v evaluated in a rational quantity algebra; (R2) the lifting helper broadcasts numbers/ndarrays/"
-    "Quantities/Arrays to all components of the left operand, rejects a different component count before any component "
-    "operation, and applies the operator to every component; **, unary -, to, reshape, copy, indexing and the three numpy "
-    "dispatch cases iterate over all components; (R3) cross product, (R4) norm and (R5) dot are symbolically executed over "
-    "physical quantities (values x unit scale) with operands in compatible-but-different units and compared with the "
-    "determinant / Euclidean norm / scalar product as polynomial identities, including the unit of the result; "
-    "(R6) construction from Arrays validates shape and unit of every component.")
-NOT_DECIDED = "numeric laws of dot/cross for concrete floats (follow from R3/R5 + numpy); dtype and shape broadcasting"
-TRUSTED = ("CPython ast", "Array semantics as established by the C02 rules (conversion of the right operand)",
-           "polynomial normal form (sa/poly.py)")
+EXPLANATION = 'Folds of the Vector class interpreted over component tokens: (R1) every operator applies the same-named Array operator to every component pair for 1-3 components and operand kinds (Vector, Array, number, ndarray, Quantity), results named/shaped consistently; (R2) component-count gate, unary/mapping methods, numpy dispatch on every component, nvec, norm recomputed after an in-place component change (no cache); (R3-R5) cross = determinant formula, norm = sqrt(sum of squares), dot = sum of products, as physical quantities (symbolic execution with units); (R6) construction from Arrays validates shape and unit of every component, the unit setter reaches every component.'
+NOT_DECIDED = 'numeric values; broadcasting between components of different shapes (rejected by the constructor)'
+TRUSTED = ('CPython ast', 'Array operator semantics as established by C02/C07', 'the interpreter sa/models.py (ModelEval) and its library models')
 
 L1 = {"L": 1}
 U1 = UnitV(1, L1)            # e.g. m
 U2 = UnitV(S("K"), L1)       # compatible, different scale (K m)
 U3 = UnitV(S("J"), {"T": -1})  # incompatible dimension
 
+TECHNIQUE = 'static analysis: abstract interpretation of the Vector class over component tokens; symbolic execution of cross/dot/norm over physical quantities'
 
 def vec(prefix, unit, n=3):
     return VectorV({c: ArrayV(S(c + prefix), unit) for c in "xyz"[:n]})
